@@ -234,8 +234,19 @@ func (g *tagger) metadata(w *world) banktypes.Metadata {
 	}
 	// a content that repeats metadata already in the bank store (set by an earlier RegisterCoin/AddCoin of the sequence, by
 	// another proposal that executed between submission and execution, or by genesis) and differs from it in one detail
+	// (stored metadata of a coin that has a supply and no token pair yet - bank genesis metadata, typically - is preferred: only
+	// there the comparison with the stored metadata decides the outcome)
+	var open []banktypes.Metadata
+	for _, sm := range w.storedMeta {
+		if sm.Base == bases[0] || sm.Base == bases[2] {
+			open = append(open, sm)
+		}
+	}
+	if len(open) > 0 && chance(g.t, "meta.fromStoredUnregistered", 50) {
+		return g.storedVariant(open)
+	}
 	if len(w.storedMeta) > 0 && chance(g.t, "meta.fromStored", 40) {
-		return g.storedVariant(w)
+		return g.storedVariant(w.storedMeta)
 	}
 	base := bases[bi]
 	name, symbol := "Coin "+base, "C"
@@ -312,8 +323,8 @@ func cloneMetadata(m banktypes.Metadata) banktypes.Metadata {
 }
 
 // storedVariant copies one of the metadata found in the bank store and changes at most one detail of it.
-func (g *tagger) storedVariant(w *world) banktypes.Metadata {
-	m := cloneMetadata(w.storedMeta[rapid.IntRange(0, len(w.storedMeta)-1).Draw(g.t, "meta.stored")])
+func (g *tagger) storedVariant(stored []banktypes.Metadata) banktypes.Metadata {
+	m := cloneMetadata(stored[rapid.IntRange(0, len(stored)-1).Draw(g.t, "meta.stored")])
 	g.note("meta.base=stored")
 	last := len(m.DenomUnits) - 1
 	switch g.pick("meta.stored.change", 9) {
